@@ -135,6 +135,94 @@ theorem isolation (sys : Sys X V L) (hW : WritesWithin sys (fun _ => False))
   obtain ⟨h1, h2⟩ := isolation_mod sys (fun _ => False) (fun l : L => l) hW (confined_empty sys) s sched
   exact ⟨funext fun x => h1 x (fun h => h), h2⟩
 
+/-! ## Commuting lock-protected updates -/
+
+/-- two states agree on the shared store and on the `low` part of every thread -/
+def LowEq (low : L → O) (s s' : State X V L) : Prop :=
+  s.shared = s'.shared ∧ ∀ t, low (s.locals t) = low (s'.locals t)
+
+/-- the store update of a step is an operation determined by the thread and its `low` part -/
+def UpdatesBy (sys : Sys X V L) (low : L → O) (upd : Nat → O → (X → V) → (X → V)) : Prop :=
+  ∀ t g l, (sys.step t g l).1 = upd t (low l) g
+
+theorem run_lowEq (sys : Sys X V L) (A : X → Prop) (low : L → O)
+    (upd : Nat → O → (X → V) → (X → V))
+    (hC : Confined sys A low) (hU : UpdatesBy sys low upd) (sched : List Nat) :
+    ∀ s s', LowEq low s s' → LowEq low (run sys s sched) (run sys s' sched) := by
+  induction sched with
+  | nil => intro s s' h; simpa [run] using h
+  | cons u sched ih =>
+    intro s s' h
+    simp only [run]
+    apply ih
+    obtain ⟨hg, hl⟩ := h
+    refine ⟨?_, ?_⟩
+    · show (sys.step u s.shared (s.locals u)).1 = (sys.step u s'.shared (s'.locals u)).1
+      rw [hU u, hU u, hg, hl u]
+    · intro t
+      show low (setLocal s.locals u _ t) = low (setLocal s'.locals u _ t)
+      by_cases htu : t = u
+      · subst htu
+        simp only [setLocal, if_true]
+        exact hC t _ _ _ _ (fun x _ => by rw [hg]) (hl t)
+      · simp only [setLocal, if_neg htu]
+        exact hl t
+
+theorem swap_lowEq (sys : Sys X V L) (A : X → Prop) (low : L → O)
+    (upd : Nat → O → (X → V) → (X → V))
+    (hW : WritesWithin sys A) (hC : Confined sys A low) (hU : UpdatesBy sys low upd)
+    (hcomm : ∀ t t' o o' g, t ≠ t' → upd t o (upd t' o' g) = upd t' o' (upd t o g))
+    (s : State X V L) (u v : Nat) :
+    LowEq low (run sys s [u, v]) (run sys s [v, u]) := by
+  by_cases huv : u = v
+  · subst huv; exact ⟨rfl, fun _ => rfl⟩
+  · have hvu : ¬ v = u := fun h => huv h.symm
+    have hU' : ∀ t g l, (sys.step t g l).1 = upd t (low l) g := hU
+    simp only [run, setLocal, if_neg huv, if_neg hvu]
+    refine ⟨?_, ?_⟩
+    · simp only [hU']
+      exact (hcomm u v _ _ _ huv).symm
+    · intro t
+      unfold setLocal
+      by_cases htu : t = u
+      · subst htu
+        simp only [if_neg huv, if_true]
+        exact hC t _ _ _ _ (fun x hx => (hW v _ _ x hx).symm) rfl
+      · by_cases htv : t = v
+        · subst htv
+          simp only [if_true, if_neg htu]
+          exact hC t _ _ _ _ (fun x hx => hW u _ _ x hx) rfl
+        · simp only [if_neg htu, if_neg htv]
+
+theorem LowEq.trans {low : L → O} {a b c : State X V L} (h1 : LowEq low a b) (h2 : LowEq low b c) :
+    LowEq low a c := ⟨h1.1.trans h2.1, fun t => (h1.2 t).trans (h2.2 t)⟩
+
+theorem run_append (sys : Sys X V L) (s : State X V L) (a b : List Nat) :
+    run sys s (a ++ b) = run sys (run sys s a) b := by
+  induction a generalizing s with
+  | nil => rfl
+  | cons x a ih => simp only [List.cons_append, run]; exact ih _
+
+/-- **Commuting atomic updates.** If the lock-protected updates of different threads
+    commute, the final shared store and the `low` part of every thread are the same for
+    all interleavings of the same steps (all permutations of a schedule). -/
+theorem perm_lowEq (sys : Sys X V L) (A : X → Prop) (low : L → O)
+    (upd : Nat → O → (X → V) → (X → V))
+    (hW : WritesWithin sys A) (hC : Confined sys A low) (hU : UpdatesBy sys low upd)
+    (hcomm : ∀ t t' o o' g, t ≠ t' → upd t o (upd t' o' g) = upd t' o' (upd t o g))
+    {sched sched' : List Nat} (hp : sched.Perm sched') :
+    ∀ s, LowEq low (run sys s sched) (run sys s sched') := by
+  induction hp with
+  | nil => intro s; exact ⟨rfl, fun _ => rfl⟩
+  | cons x _ ih => intro s; simp only [run]; exact ih _
+  | swap x y l =>
+    intro s
+    have h := swap_lowEq sys A low upd hW hC hU hcomm s y x
+    have := run_lowEq sys A low upd hC hU l _ _ h
+    rw [← run_append, ← run_append] at this
+    simpa using this
+  | trans _ _ ih1 ih2 => intro s; exact (ih1 s).trans (ih2 s)
+
 /-! ## C13 — the `{` entry of the grammar table -/
 
 /-- how a `{` token is read -/
